@@ -11,6 +11,8 @@ import (
 	"strings"
 
 	"github.com/Oudwins/zog/parsers/zjson"
+	"github.com/Oudwins/zog/zhttp"
+	"net/http/httptest"
 
 	"zogverif/internal/core"
 	"zogverif/internal/gen"
@@ -287,7 +289,11 @@ func c09Wide(c *core.Ctx) bool {
 	}
 	// two body factories made by one helper, parsed side by side in one execution; sibling paths whose segments spell the same text;
 	// a json.RawMessage where a record is expected, next to a list of records with json tags
-	mkDoc := func(doc string) any { return zjson.Decode(strings.NewReader(doc)) }
+	mkDoc := func(doc string) any {
+		r := httptest.NewRequest("POST", "/docs", strings.NewReader(doc))
+		r.Header.Set("Content-Type", "application/json")
+		return zhttp.Request(r)
+	}
 	type part struct {
 		Title string `json:"title"`
 	}
@@ -324,7 +330,7 @@ func c09Wide(c *core.Ctx) bool {
 		c.Eval(3)
 	}
 	if len(outs) != 1 || outs["{A:{Title:first} B:{Title:2nd}} [b.title]"] != 40 {
-		c.Violation("result-depends-on-order|two-body-factories-in-one-execution", map[string]any{"schema": "{a: Struct{title: Required}, b: Struct{title: Required.Min(4)}}", "input": "a and b: zjson.Decode documents made by one helper ({title: first} / {title: 2nd})", "distinct_results_over_40_runs": outs, "want": "{A:{Title:first} B:{Title:2nd}} [b.title] every time"})
+		c.Violation("result-depends-on-order|two-body-factories-in-one-execution", map[string]any{"schema": "{a: Struct{title: Required}, b: Struct{title: Required.Min(4)}}", "input": "a and b: zhttp.Request JSON bodies ({title: first} / {title: 2nd})", "distinct_results_over_40_runs": outs, "want": "{A:{Title:first} B:{Title:2nd}} [b.title] every time"})
 		return false
 	}
 	if len(outs2) != 1 || outs2["host.name, hostname, user.name, username"] != 40 {
